@@ -38,7 +38,6 @@ WORK = V.BUILD / "work" / CID
 BUDGET = 4000000
 MAX_CERT_IN_BITS = 7          # 3^7 input vectors per product state; wider designs: interpreter replay only
 KNOWN_CASE = "mux-undefined-selector-case-others"
-KNOWN_SHIFT = "shift-slv-context"
 
 
 # ---------------------------------------------------------------------------------------------
@@ -222,8 +221,6 @@ def main():
     forb = V.scan_forbidden()
     known, _ = V.known_findings(CID)
     known_case_listed = any(k.startswith(KNOWN_CASE) for k in known)
-    known_shift_listed = any(k.startswith(KNOWN_SHIFT) for k in known)
-    known_shift = []
 
     designs = load_corpus()
     replay_stim = None
@@ -408,9 +405,6 @@ def main():
         if reason is None or any(v.get("design") == did for v in violations):
             continue
         disagreements += 1
-        if ("shift_left on slv" in reason or "shift_right on slv" in reason) and known_shift_listed:
-            known_shift.append((did, mode, reason))
-            continue
         found = None
         if len([v for v in violations if v.get("searched")]) < 4:
             try:
@@ -531,9 +525,6 @@ def main():
             violations.insert(0, dict(kind="VHDL is less defined than the reference simulation: CASE .. WHEN OTHERS => X under an undefined mux selector",
                                       design=did, mode=mode, program=prog[did], stimulus=circ.stim_of(circ.parse_traces(WORK / ("run_" + mode) / f"{did}.trace")[m["trace"]]),
                                       failing=m, vhdl=excerpt(WORK / ("run_" + mode), did, "CASE")))
-    if known_shift:
-        rep.known(f"{KNOWN_SHIFT} ({len(known_shift)} exports this run, e.g. {known_shift[0][0]}: {known_shift[0][2][:160]})")
-    rep.cov["known_shift_slv_context_exports"] = len(known_shift)
     seen = 0
     for v in violations:
         if seen >= 6:
